@@ -61,12 +61,12 @@ def settle_unknown(obl, r, task, solve):
     if task.get("record") or norm_name(obl.name) not in baseline_set(task["prop"]):
         return r2
     if r2.status == "unknown":
-        # before an obligation of the committed baseline is reported as regressed (= a violation) it gets a last attempt with sixteen times the
+        # before an obligation of the committed baseline is reported as regressed (= a violation) it gets a last attempt with eight times the
         # budget: a verdict on the unchanged tree must not depend on how busy the machine is
-        r2 = solve.discharge(obl, timeout_ms=16 * task["timeout_ms"])
+        r2 = solve.discharge(obl, timeout_ms=8 * task["timeout_ms"])
     if r2.status == "unknown":
         r2.status = "regressed"
-        r2.reason = f"discharged on the unchanged tree, now undecided after retries with {4 * task['timeout_ms']} and {16 * task['timeout_ms']} ms: {r2.reason}"
+        r2.reason = f"discharged on the unchanged tree, now undecided after retries with {4 * task['timeout_ms']} and {8 * task['timeout_ms']} ms: {r2.reason}"
     return r2
 
 
